@@ -276,7 +276,7 @@ fn run_child(
             }
         }
     });
-    let stall = Duration::from_secs(20);
+    let stall = Duration::from_secs(120); // 20 s was too short on a loaded machine (VM start-up before the first START line); no program of the streams hangs on the unchanged tree, so the long budget costs nothing there
     let mut last_start: Option<usize> = None;
     let mut res = vec![];
     let mut done = false;
